@@ -96,6 +96,13 @@ class Sim:
         self.addr2name = {}
         for i in range(nserv):
             host = "mc%d" % i
+            if unix == "caps":
+                # host names with capitals; all but the first server join through the public add_server(host, port)
+                host = "Cache-%d.Example" % i
+                self.servers["%s:11211" % host] = self.net.add_server(host, 11211, RefServer(self.clock, name=host))
+                self.names.append("%s:11211" % host)
+                specs.append((host, 11211))
+                continue
             if unix == "multi":
                 # every server name resolves to two addresses (IPv6 first, then IPv4 - a dual-stack host): one attempt on a
                 # server that is down is still one contact
@@ -126,9 +133,15 @@ class Sim:
         self._restore.append(self.clock.patch_module(poolmod))
         self.ra, self.ign, self.pooling = retry_attempts, ignore_exc, pooling
         extra = {"hasher": ContractOnlyHasher} if own_hasher else {}
-        self.hc = hashmod.HashClient(specs, socket_module=self.net, retry_attempts=retry_attempts, retry_timeout=RT,
+        late = specs[1:] if unix == "caps" else []
+        self.hc = hashmod.HashClient(specs[:1] if late else specs, socket_module=self.net, retry_attempts=retry_attempts, retry_timeout=RT,
                                      dead_timeout=DT, ignore_exc=ignore_exc, use_pooling=pooling, default_noreply=False,
                                      timeout=1.0, connect_timeout=1.0, **extra)
+        for li, (h_, p_) in enumerate(late):
+            if li % 2 == 0:
+                self.hc.add_server(h_, p_)
+            else:
+                self.hc.add_server((h_, p_))
         self.keys = owned_keys(self.names)
         self.owner = {k: n for n, ks in self.keys.items() for k in ks}
         # monitor state
@@ -557,7 +570,7 @@ def shard(tier, seed, idx, n):
             for ra in (0, 1, 2):
                 for ign in (False, True):
                     for pool, unix, own in ((False, False, False), (True, False, False), (False, True, False), (False, False, True),
-                                            (False, "multi", False)):
+                                            (False, "multi", False), (False, "caps", False)):
                         for bad in range(nserv):
                             for kind in ("refused", "reset", "reset_on_recv"):
                                 for opn in ("setmanyget_pairs", "setmanyget", "set_many", "setget_pair", "getmany_vs_get", "get", "get_many_big"):
@@ -568,6 +581,8 @@ def shard(tier, seed, idx, n):
                                     if kind == "reset_on_recv" and (pool or unix or own or opn in ("setmanyget_pairs", "getmany_vs_get")):
                                         continue
                                     if opn == "get_many_big" and (unix or own or kind == "reset"):
+                                        continue
+                                    if unix == "caps" and (kind == "reset_on_recv" or opn in ("setmanyget_pairs", "getmany_vs_get", "setget_pair")):
                                         continue
                                     gap = 9.5 if (opn, kind) in (("get", "refused"), ("set_many", "reset")) else 11
                                     for step in range(6):
@@ -581,7 +596,7 @@ def shard(tier, seed, idx, n):
     for i in range(count):
         nserv = rng.choice([2, 3])
         cfg = (nserv, rng.choice([0, 1, 2]), rng.random() < 0.5, rng.random() < 0.3,
-               rng.choice((False, False, False, False, True, True, "multi", "multi")), rng.random() < 0.25)
+               rng.choice((False, False, False, False, True, True, "multi", "multi", "caps")), rng.random() < 0.25)
         path = run_sequence(res, cfg, random_sequence(rng, nserv), epilogue=True, label="rand")
         states.update(path)
         res.count("random_sequences")
